@@ -12,8 +12,8 @@ use sv_parser_parser::verif_hooks as hooks;
 
 pub fn cases(tier: Tier) -> u64 {
     match tier {
-        Tier::Quick => 5000,
-        Tier::Thorough => 120000,
+        Tier::Quick => 16000,
+        Tier::Thorough => 300000,
         Tier::Tiny => 16,
     }
 }
@@ -170,9 +170,9 @@ pub fn run_case(env: &Env, ctx: &mut Ctx, idx: u64) {
                 hooks::set_capacity(None);
                 let again = parse_file(Gram::Sv, &top, &cfg);
                 hooks::set_capacity(Some(hooks::DEFAULT_CAPACITY));
-                let sig = if matches!(again, Ok(Err(_))) { "K3" } else { "" };
-                let m = format!("a source with fault {} at offset {} of {} is accepted", kind, fault_in_file, fault_file.display());
-                ctx.violation("fault-accepted", sig, &m, witness(&m));
+                let (sig, note) = crate::memo_cfg::attribute(env, if matches!(again, Ok(Err(_))) { "K3" } else { "" });
+                let m = format!("a source with fault {} at offset {} of {} is accepted{}", kind, fault_in_file, fault_file.display(), note);
+                ctx.violation("fault-accepted", &sig, &m, witness(&m));
             }
             Err(e) => {
                 // unwrap Include for preprocessor-level faults inside includes
